@@ -1511,7 +1511,9 @@ int state_sync(struct snapraid_state* state, block_off_t blockstart, block_off_t
 		}
 
 		/* number of block in the parity file */
-		parity_size(&parity_handle[l], &out_size);
+		/* counting only what is really on disk, and not the size recorded */
+		/* in the content file, that may refer at a lost or truncated file */
+		parity_valid_size(&parity_handle[l], &out_size);
 		parityblocks = out_size / state->block_size;
 
 		/* if the file is too small */
